@@ -34,6 +34,8 @@ def props_of(op, clause: str, text: str) -> set[str]:
             return {"C02"}
         return {"C01"}
     if clause == "effect":
+        if t in ("addtree", "tree_copy_to") and ": kind " not in text:
+            return {"C04", "C07"}  # documented position (C04) in source order (C07); kinds of copies are C07 only
         return {"C07"} if t in COPY_OPS else {"C04"}
     if clause == "source.changed":
         return {"C07"}
@@ -104,7 +106,7 @@ GROUPS_OF = {
     "C01": ("add", "shortcut", "addnode", "addtree", "move", "remove", "data", "del", "sort"),
     "C02": ("add", "addnode", "move", "remove", "data", "del"),
     "C03": ("add", "shortcut", "addnode", "addtree", "move", "remove", "data"),
-    "C04": ("add", "shortcut", "move", "remove", "sort", "data", "meta", "del"),
+    "C04": ("add", "shortcut", "addtree", "move", "remove", "sort", "data", "meta", "del"),
     "C07": ("addnode", "addtree"),
     "C13": ("add", "shortcut", "addnode", "addtree", "move", "remove", "data", "del"),
 }
